@@ -1,5 +1,5 @@
 (* C03 — workflow state propagation = nested-loop reference evaluation. *)
-From Pydra Require Import Base.Prelude Model.StateWf Spec.StateWf Proofs.StateWf Proofs.StateWfMain.
+From Pydra Require Import Base.Prelude Model.StateWf Spec.StateWf Proofs.StateWf Proofs.StateWfMain Proofs.StateWfCor.
 
 (* the property at full strength: on every well-formed workflow of the modelled fragment the model
    (= the code) produces exactly the nested-loop outputs *)
@@ -25,3 +25,46 @@ Print Assumptions C03_diamond_multiplies.
 Theorem C03_partial : forall wf : workflow, c03_domain wf = true -> model_run wf = Some (spec_run wf).
 Proof. exact partial. Qed.
 Print Assumptions C03_partial.
+
+Example C03_partial_fanin_example : c03_domain fanin_example = true.
+Proof. exact fanin_example_in_class. Qed.
+
+(* chains, fan-out, trees of pipelines: every node takes all its upstream inputs from one node (possibly
+   through several fields, with own splitters and combiners) — any length, any list sizes *)
+Theorem C03_chain : forall wf : workflow,
+  wf_ok wf = true -> forallb single_input wf = true ->
+  comb_all_prev_class wf = true -> empty_comb_class wf = true ->
+  model_run wf = Some (spec_run wf).
+Proof. exact chain_class. Qed.
+Print Assumptions C03_chain.
+
+Theorem C03_chain_no_combiner : forall wf : workflow,
+  wf_ok wf = true -> forallb single_input wf = true -> forallb no_combiner wf = true ->
+  model_run wf = Some (spec_run wf).
+Proof. exact chain_nocomb. Qed.
+Print Assumptions C03_chain_no_combiner.
+
+Example C03_chain_example :
+  wf_ok chain_example = true /\ forallb single_input chain_example = true /\
+  comb_all_prev_class chain_example = true /\ empty_comb_class chain_example = true.
+Proof. exact chain_example_in_class. Qed.
+
+(* fan-in of independent origins: the inputs of every node have pairwise no common ancestor
+   (a graph condition: the provenance of every node is a forest) *)
+Theorem C03_fanin_independent : forall wf : workflow,
+  wf_ok wf = true -> independent_inputs wf = true ->
+  comb_all_prev_class wf = true -> empty_comb_class wf = true ->
+  model_run wf = Some (spec_run wf).
+Proof. exact fanin_class. Qed.
+Print Assumptions C03_fanin_independent.
+
+Theorem C03_fanin_independent_no_combiner : forall wf : workflow,
+  wf_ok wf = true -> independent_inputs wf = true -> forallb no_combiner wf = true ->
+  model_run wf = Some (spec_run wf).
+Proof. exact fanin_nocomb. Qed.
+Print Assumptions C03_fanin_independent_no_combiner.
+
+Example C03_fanin_example : independent_inputs fanin_example = true.
+Proof. exact fanin_example_independent. Qed.
+Example C03_diamond_excluded : independent_inputs diamond = false /\ c03_domain diamond = false.
+Proof. exact diamond_not_independent. Qed.
